@@ -226,9 +226,27 @@ let spec_obs (ts : tok list) : string =
     | None -> (try spec_for ts with Outcome _ -> "-")
   with Silent -> "-"
 
+(* "#slice N sel": value of an index / slice of the array [10 20 ... 10*N] *)
+let slice_line (id : string) (body : string) : unit =
+  let ws = List.filter (fun x -> x <> "") (String.split_on_char ' ' body) in
+  match ws with
+  | _ :: n :: sel ->
+    let n = int_of_string n in
+    let l = List.init n (fun i -> z_of_int (10 * (i + 1))) in
+    let sel = List.map (fun w -> if w = ":" then SColon else SInt (z_of_string w)) sel in
+    let show = function
+      | VElem x -> string_of_z x
+      | VSlice xs -> "[" ^ String.concat " " (List.map string_of_z xs) ^ "]"
+      | VErr -> "ERR" in
+    let m = show (select_model l sel) in
+    let sp = (match shape_of sel with Some sh -> show (select_spec l sh) | None -> "-") in
+    Printf.printf "%s\t%s\t%s\n" id m sp
+  | _ -> failwith ("bad slice line: " ^ body)
+
 let () =
   iter_lines (fun line ->
     match split_tab line with
+    | id :: body :: _ when String.length body > 6 && String.sub body 0 6 = "#slice" -> slice_line id body
     | id :: body :: _ ->
       Hashtbl.reset reprs; Hashtbl.reset contents; counter := 0;
       let ws = List.filter (fun x -> x <> "") (String.split_on_char ' ' body) in
